@@ -172,7 +172,8 @@ def checkC16 (toks : List String) (res : String) : Option Verdict :=
       | .ok x, .ok y => if x == y then '1' else '0'
       | _, _ => 'U'
     let m := String.ofList [resChar e, hc]
-    let guardEq := decide (CmpGuard a.num a.den b.num b.den) && d1 != 0 && d2 != 0
+    -- the hash/equality contract belongs to one `std::hash<T>` specialisation: same fraction type on both sides
+    let guardEq := decide (CmpGuard a.num a.den b.num b.den) && d1 != 0 && d2 != 0 && ta == tb
     let guardH := canonGuard a true && canonGuard b true
     let eqWant := val a == val b
     let spec : Option Bool :=
